@@ -31,6 +31,7 @@ pub fn reward_profile(t: Tier) -> Profile {
     p.accrue = 12;
     p.update_index = 10;
     p.donate = 6;
+    p.migrate = 4;
     p.withdraw = 2;
     p.advance = 4;
     p.slash = 1;
